@@ -109,9 +109,10 @@ impl Search {
     /// ```
     pub fn search(&mut self, evaluator: &impl Evaluator, max_depth: Option<Depth>) {
         // Uses a heuristic to determine the maximum time to spend on a move
+        // `running` is already true for a new search; storing true again here would overwrite a
+        // stop that arrived before the search thread got going.
         #[cfg(rce_verif)]
         crate::verif::sched("S.entry");
-        self.start();
         #[cfg(rce_verif)]
         crate::verif::sched("S.started");
 
@@ -775,23 +776,6 @@ impl Search {
     /// ```
     pub const fn get_nodes(&self) -> NodeCount {
         self.info.nodes
-    }
-
-    /// Sets the `AtomicBool` that is used to determine if the search should continue to true
-    /// Normally called by the search function.
-    ///
-    /// # Example
-    /// ```
-    /// let board = BoardBuilder::construct_starting_board().build();
-    /// let evaluator = SimpleEvaluator::new();
-    /// let mut search = Search::new(&board, &evaluator, None);
-    /// search.stop();
-    /// assert_eq!(search.is_running(), false);
-    /// search.start();
-    /// assert_eq!(search.is_running(), true);
-    /// ```
-    fn start(&self) {
-        self.running.store(true, Ordering::Relaxed);
     }
 
     /// Sets the `AtomicBool` that is used to determine if the search should continue to false
